@@ -33,6 +33,11 @@ impl CommandCompiler {
         self.session.checked_program(analysis)
     }
 
+    /// The full typed arena behind an analysis, which itself retains only keyed indexes.
+    pub fn materialize_arena(&self, analysis: &ProgramAnalysis) -> Option<Arc<StaticsArena>> {
+        self.session.materialize_arena(analysis).ok()
+    }
+
     pub fn executable_program(
         &self, analysis: &ProgramAnalysis,
     ) -> Result<ExecutableProgram, CompileError> {
